@@ -352,7 +352,7 @@ func genErrorScenario(c *mon.Case, sc *scenario, n int, kind string, dom []*gen.
 			k = n
 		}
 		sc.name = "err-key-throws"
-		sc.setup = fmt.Sprintf(`var cnt = 0; var f = {|x| set cnt = (+ $cnt 1); if (== $cnt %d) { fail key-boom }; put $x[0] }`, k)
+		sc.setup = fmt.Sprintf(`var cnt = 0; var f = {|x| set cnt = (+ $cnt 1); if (== $cnt %d) { %sfail key-boom }; put $x[0] }`, k, []string{"", "put $x[0]; "}[r.Intn(2)])
 		sc.options = "&key=$f"
 		sc.items = mkItems(r, n, dom, "pair")
 		sc.wantErr = "key-boom"
@@ -455,7 +455,13 @@ func runOrder(c *mon.Case) {
 		case 1:
 			k = 1
 		}
-		sc.setup = fmt.Sprintf(`var cnt = 0; var f = {|a b| set cnt = (+ $cnt 1); if (== $cnt %d) { fail lt-boom }; == -1 (compare $a $b) }`, k)
+		// the callback may have written its (well-formed) answer before it fails;
+		// the failure still has to be reported
+		pre := []string{"", "", "put $true; ", "put $false; ", "put (== -1 (compare $a $b)); "}[c.Rand.Intn(5)]
+		if pre != "" {
+			c.Count("less_than_throws_after_output", 1)
+		}
+		sc.setup = fmt.Sprintf(`var cnt = 0; var f = {|a b| set cnt = (+ $cnt 1); if (== $cnt %d) { %sfail lt-boom }; == -1 (compare $a $b) }`, k, pre)
 		wit["setup"] = sc.setup
 		wit["comparator_calls_in_dry_run"] = total
 		c.Max("less_than_calls", total)
@@ -602,6 +608,6 @@ func Spec() *mon.Spec {
 		Phases:     []mon.Phase{{Name: "order", Quick: 6000, Thorough: 100000, Run: runOrder}},
 		Floors: map[string]int{"distinct_nontrivial": 1200, "adjacent_ties_in_expected_output": 20000, "error_scenarios": 500, "reverse": 600, "inputs_from_pipe": 300,
 			"len_0_12": 500, "len_13_41": 500, "len_42_300": 500, "length": 300, "scenario_default": 400, "scenario_total": 150, "scenario_key-first": 80,
-			"scenario_less-than-compare": 30, "scenario_err-less-than-throws": 30, "scenario_err-key-throws": 30, "less_than_throws_at_last_call": 8},
+			"scenario_less-than-compare": 30, "scenario_err-less-than-throws": 30, "scenario_err-key-throws": 30, "less_than_throws_at_last_call": 8, "less_than_throws_after_output": 10},
 	}
 }
